@@ -204,7 +204,7 @@ def molecules():
     """(labels, positions) of the molecules in the repository's test data"""
     import ase.io
     out = []
-    for name in ("ethanol.xyz", "cyclopentane.xyz", "hexane.xyz", "benzene.xyz"):
+    for name in ("ethanol.xyz", "ethanol_scramble.xyz", "cyclopentane.xyz", "hexane.xyz", "benzene.xyz", "ethanol2.xyz"):
         p = REPO / "tests" / "test_data" / name
         if p.exists():
             a = ase.io.read(str(p))
@@ -341,6 +341,73 @@ def check_alignment(ctx: Ctx, sim, coords, labels, other, tag, expect_zero: bool
                  f"reported permutation (max distance error {np.max(np.abs(da - db)):.2e}, {tag})", rep)
 
 
+def prepare_attempts(ctx: Ctx) -> None:
+    """NetworkSampling.prepare_connection_attempt, the place the alignment is used from: for a pair (a, b) given in
+    either order the first array is minimum a, the second a rigid like-atom-permuted image of minimum b, both
+    plain arrays, and the permutation reproduces the returned ordering"""
+    from topsearch.data.coordinates import AtomicCoordinates
+    from topsearch.data.kinetic_transition_network import KineticTransitionNetwork
+    from topsearch.sampling.exploration import NetworkSampling
+    rng = ctx.rng
+
+    def dmat(x):
+        p = np.asarray(x, dtype=float).reshape(-1, 3)
+        return np.linalg.norm(p[:, None, :] - p[None, :, :], axis=2)
+    for _ in range(ctx.scale(4, 20)):
+        n = rng.randrange(5, 9)
+        labels = [rng.choice(["C", "O"]) for _ in range(n)]
+        a, b = cluster(rng, n), cluster(rng, n)
+        perm = list(range(n))
+        for sp in set(labels):
+            idx = [i for i in range(n) if labels[i] == sp]
+            sh = idx[:]; rng.shuffle(sh)
+            for u, v in zip(idx, sh):
+                perm[u] = v
+        a2 = a[perm] @ random_rotation(rng).T + np.array([rng.uniform(-2, 2) for _ in range(3)])
+        stored = [a.flatten(), b.flatten(), a2.flatten()]
+        if not prepare_check(ctx, labels, stored, ([0, 1], [1, 0], [0, 2], [2, 0], [1, 2], [2, 1])):
+            return
+
+
+def prepare_check(ctx: Ctx, labels, stored, pairs) -> bool:
+    from topsearch.data.coordinates import AtomicCoordinates
+    from topsearch.data.kinetic_transition_network import KineticTransitionNetwork
+    from topsearch.sampling.exploration import NetworkSampling
+    n = len(labels)
+    stored = [np.asarray(x, dtype=float) for x in stored]
+
+    def dmat(x):
+        p = np.asarray(x, dtype=float).reshape(-1, 3)
+        return np.linalg.norm(p[:, None, :] - p[None, :, :], axis=2)
+    if True:
+        ktn = KineticTransitionNetwork()
+        for i, x in enumerate(stored):
+            ktn.add_minimum(x.copy(), -10.0 + i)
+        coords = AtomicCoordinates(labels, stored[0].copy())
+        ns = NetworkSampling(ktn, coords, None, None, None, make_sim(0.1))
+        for pair in pairs:
+            m1, m2, repeats, pm = ns.prepare_connection_attempt(coords, list(pair))
+            rep = {"prepare": True, "labels": labels, "stored": [x.tolist() for x in stored], "pair": pair}
+            ctx.stats.case({"pred": "prepare_connection_attempt", "n": n, "descending": pair[0] > pair[1]}, True)
+            if not (isinstance(m1, np.ndarray) and isinstance(m2, np.ndarray)):
+                ctx.fail("prepare:returns-non-array", f"prepare_connection_attempt({pair}) returned "
+                         f"{type(m1).__name__}/{type(m2).__name__}", rep)
+                return False
+            pm = [int(q) for q in pm]
+            tol = 1e-7 * max(1.0, float(np.max(dmat(stored[pair[0]]))))
+            if np.max(np.abs(dmat(m1) - dmat(stored[pair[0]]))) > tol:
+                ctx.fail("prepare:first-array-is-not-first-minimum", f"prepare_connection_attempt({pair}): the first "
+                         f"array returned is not minimum {pair[0]}", rep)
+                return False
+            if sorted(pm) != list(range(n)) or any(labels[pm[i]] != labels[i] for i in range(n)) or \
+                    np.max(np.abs(dmat(m2) - dmat(stored[pair[1]].reshape(-1, 3)[pm]))) > tol:
+                ctx.fail("prepare:second-array-is-not-image-of-second-minimum", f"prepare_connection_attempt({pair}): "
+                         f"the second array is not a rigid like-atom-permuted image of minimum {pair[1]} under the "
+                         f"reported permutation {pm}", rep)
+                return False
+    return True
+
+
 def predicates(ctx: Ctx) -> None:
     from topsearch.data.coordinates import AtomicCoordinates, MolecularCoordinates
     import topsearch.similarity.molecular_similarity as ms
@@ -457,30 +524,37 @@ def predicates(ctx: Ctx) -> None:
                 ctx.stats.case({"pred": "lj13"}, True)
                 check_alignment(ctx, make_sim(0.1), AtomicCoordinates(['C'] * 13, pos.flatten().copy()),
                                 ['C'] * 13, other, "lj13", True)
-        for name, labels, pos in molecules():
-            for _ in range(ctx.scale(1, 5)):
-                try:
-                    coords = MolecularCoordinates(labels, pos.flatten().copy())
-                except Exception as e:
-                    ctx.stats.notes[f"molecule:{name}"] = f"skipped ({type(e).__name__})"
-                    break
-                sim = make_sim(0.1)
-                g1, _ = sim.get_permutable_groups(coords, pos.flatten().copy())
-                perm = list(range(len(labels)))
-                for g in g1:
-                    sh = list(g); rng.shuffle(sh)
-                    for a, b in zip(g, sh):
-                        perm[a] = b
-                other = (pos[perm] @ random_rotation(rng).T + 1.3).flatten()
-                coords.position = pos.flatten().copy()
-                g1b, g2b = sim.get_permutable_groups(coords, other.copy())
-                if g1b != g2b:
-                    ctx.stats.near_ties += 1       # permuted copy changes an environment: outside the domain
-                    continue
-                ctx.stats.case({"pred": "molecule", "name": name}, True)
-                # permuting atoms the code regards as equivalent may still not be a symmetry of the
-                # molecule as a whole (e.g. hydrogens on different carbons): only the structural clauses apply
-                check_alignment(ctx, sim, coords, labels, other, name, False)
+        # every molecule with a similarity object of its own, then all of them through ONE object (a run keeps a
+        # single similarity object for every pair it aligns; ethanol and ethanol_scramble list the same species
+        # in the same order with the bonding at different atoms)
+        shared = make_sim(0.1)
+        for use_shared in (False, True):
+            for name, labels, pos in molecules():
+                for _ in range(ctx.scale(1, 5)):
+                    try:
+                        coords = MolecularCoordinates(labels, pos.flatten().copy())
+                    except Exception as e:
+                        ctx.stats.notes[f"molecule:{name}"] = f"skipped ({type(e).__name__})"
+                        break
+                    sim = shared if use_shared else make_sim(0.1)
+                    judge = make_sim(0.1)              # the domain guard never goes through the object under test
+                    g1, _ = judge.get_permutable_groups(coords, pos.flatten().copy())
+                    perm = list(range(len(labels)))
+                    for g in g1:
+                        sh = list(g); rng.shuffle(sh)
+                        for a, b in zip(g, sh):
+                            perm[a] = b
+                    other = (pos[perm] @ random_rotation(rng).T + 1.3).flatten()
+                    coords.position = pos.flatten().copy()
+                    g1b, g2b = judge.get_permutable_groups(coords, other.copy())
+                    if g1b != g2b:
+                        ctx.stats.near_ties += 1       # permuted copy changes an environment: outside the domain
+                        continue
+                    ctx.stats.case({"pred": "molecule", "name": name, "shared_object": use_shared}, True)
+                    # permuting atoms the code regards as equivalent may still not be a symmetry of the
+                    # molecule as a whole (e.g. hydrogens on different carbons): only the structural clauses apply
+                    check_alignment(ctx, sim, coords, labels, other, name + (":shared-object" if use_shared else ""), False)
+        prepare_attempts(ctx)
     finally:
         ms.rotations = real_rotations
 
@@ -488,7 +562,9 @@ def predicates(ctx: Ctx) -> None:
 def replay(ctx: Ctx, data: dict) -> bool:
     from topsearch.data.coordinates import AtomicCoordinates
     labels = data.get("labels")
-    if not labels:
+    if data.get("prepare"):
+        prepare_check(ctx, labels, data["stored"], [data["pair"]])
+    elif not labels or ":shared-object" in str(data.get("system", "")):
         predicates(ctx)
     else:
         coords = AtomicCoordinates(labels, np.array(data["coords1"], float))
